@@ -45,8 +45,10 @@ class Env:
         self.sg = sys.modules["sgio"]
         self.isc = sys.modules["iscsi"]
         self.isc.with_raw_sense = transport != "iscsi_noraw"
+        self.node = None
+        self.static_sense = None  # when set: the binding hands out this one bytearray for every CHECK CONDITION
         if transport == "sgio":
-            self.dev = install.sgio_device()[0]
+            self.dev, self.node = install.sgio_device()
             self.mod = self.sg
         else:
             self.dev = install.iscsi_device()
@@ -60,6 +62,13 @@ class Env:
     def handler(self, ev):
         status, sense = self.plan.pop(0) if self.plan else (0, None)
         self.injected.append((status, sense))
+        if self.static_sense is not None:
+            # a binding that reuses one sense buffer: overwritten by every command, zeroed on GOOD
+            for i in range(len(self.static_sense)):
+                self.static_sense[i] = 0
+            if sense is not None:
+                self.static_sense[: len(sense)] = sense
+                return status, self.static_sense
         return status, sense
 
     def unique_sense(self, rng, rc=None, key=None, n=None):
@@ -76,6 +85,12 @@ class Env:
         return ref.build(rc, 1, key, asc, ascq, n, info=self.counter)
 
 
+def same_sense(attached, sent):
+    """the attached raw sense is what the target sent (a binding with one fixed-size sense buffer pads with zeros)"""
+    a, b = bytes(attached), bytes(sent)
+    return a[: len(b)] == b and not any(a[len(b):])
+
+
 def judge_call(ctx, env, path, status, sense, raw, outcome, exc, cmd, extra):
     """predicates 1-3 for one executed command"""
     from vmon.spec import sense as ref
@@ -90,7 +105,7 @@ def judge_call(ctx, env, path, status, sense, raw, outcome, exc, cmd, extra):
             ctx.fail(base + ".good_status_raises", "GOOD status raised %r" % exc, wit, exc=exc)
         return
     if outcome == "returned":
-        ok = status == 2 and raw and sense is not None and cmd is not None and cmd.raw_sense_data is not None and bytes(cmd.raw_sense_data) == bytes(sense)
+        ok = status == 2 and raw and sense is not None and cmd is not None and cmd.raw_sense_data is not None and same_sense(cmd.raw_sense_data, sense)
         if not ok:
             ctx.fail(base + ".returns_normally.%s%s" % (sclass, ".raw" if raw else ""),
                      "status %02Xh over %s via %s (en_raw_sense=%s) returned normally" % (status, t, path, raw), wit)
@@ -110,7 +125,7 @@ def judge_call(ctx, env, path, status, sense, raw, outcome, exc, cmd, extra):
             prev = [s for st, s in env.injected[:-1] if s is not None and ref.parse(s)[2:] == got]
             mech = ".stale_sense_of_earlier_command" if prev else ".wrong_sense_values"
             ctx.fail(base + mech, "CheckCondition reports key/asc/ascq %r, target sent %r" % (got, (key, asc, ascq)), wit)
-        if raw and cmd is not None and (cmd.raw_sense_data is None or bytes(cmd.raw_sense_data) != bytes(sense)):
+        if raw and cmd is not None and (cmd.raw_sense_data is None or not same_sense(cmd.raw_sense_data, sense)):
             ctx.fail(base + ".raw_sense_not_attached", "en_raw_sense=True but cmd.raw_sense_data != injected sense", wit)
     elif status in NAMED and t.startswith("iscsi"):
         if name != NAMED[status]:
@@ -118,9 +133,17 @@ def judge_call(ctx, env, path, status, sense, raw, outcome, exc, cmd, extra):
 
 
 def execute(env, cmd, raw, via=None):
-    """returns (outcome, exc)"""
+    """returns (outcome, exc); via='scsi' uses the generic SCSI.execute(cmd) of a facade"""
     try:
-        if via is None:
+        if via == "scsi":
+            from vmon import harness
+
+            s = harness.make_facade(env.dev)
+            if raw:
+                s.execute(cmd, en_raw_sense=True)
+            else:
+                s.execute(cmd)
+        elif via is None:
             env.dev.execute(cmd, en_raw_sense=raw)
         else:
             via()
@@ -136,7 +159,14 @@ def fresh_cmd(env, rng, kind=None):
     from pyscsi.pyscsi.scsi_cdb_write10 import Write10
     import pyscsi.pyscsi.scsi_enum_command as E
 
-    kind = kind or rng.choice(["tur", "inq", "read", "write"])
+    kind = kind or rng.choice(["tur", "inq", "read", "write", "any", "any"])
+    if kind == "any":
+        from vmon import harness
+        from vmon.spec import cdb as S, dataout as DO
+
+        c = rng.choice(list(S.COMMANDS.values()))
+        a = DO.GEN[c.custom](rng)[0] if c.custom else harness.random_args(c, rng, cap=2048)
+        return harness.construct(c, c.sets[0], a)
     if kind == "tur":
         return TestUnitReady(E.sbc.TEST_UNIT_READY)
     if kind == "inq":
@@ -154,16 +184,18 @@ def run(shard, ctx):
     if kind == "status":
         for status in range(256):
             for raw in (False, True):
-                for ck in ("tur", "inq"):
+                for ck in ("tur", "inq", "any", "any"):
                     sense = env.unique_sense(rng) if status == 2 else None
                     env.plan = [(status, sense)]
                     cmd = fresh_cmd(env, rng, ck)
-                    outcome, exc = execute(env, cmd, raw)
-                    ctx.case((t, "execute", status, raw, ck), status != 0,
+                    via = "scsi" if ck == "any" else None
+                    outcome, exc = execute(env, cmd, raw, via)
+                    ctx.case((t, "scsi.execute" if via else "execute", status, raw, ck, type(cmd).__name__), status != 0,
                              sample={"transport": t, "status": status, "raw": raw, "outcome": outcome, "exception": repr(exc)[:80]} if ctx.want_sample() else None)
                     ctx.add("statuses_injected", status)
                     ctx.count("binding_calls")
-                    judge_call(ctx, env, "execute", status, sense, raw, outcome, exc, cmd, {"cmd": ck})
+                    judge_call(ctx, env, "scsi_execute" if via else "execute", status, sense, raw, outcome, exc, cmd,
+                               {"cmd": ck, "class": type(cmd).__name__, "opcode": cmd.cdb[0]})
     elif kind == "sense":
         for rc in (0x70, 0x71, 0x72, 0x73):
             for key in range(16):
@@ -195,6 +227,13 @@ def run(shard, ctx):
         ctx.fail("C07:%s.command_never_reached_binding" % t, "planned status never consumed", {"left": len(env.plan)})
 
 
+def ref_build_ua(env):
+    from vmon.spec import sense as ref
+
+    env.counter += 1
+    return ref.build(0x70, 0, 6, 0x29, env.counter & 0xFF, 18, info=env.counter)
+
+
 def run_sequences(shard, ctx, env, rng):
     t = env.transport
     for s in range(shard["n"]):
@@ -208,24 +247,57 @@ def run_sequences(shard, ctx, env, rng):
             steps.append((status, reuse, bool(rng.getrandbits(1)) if rng.random() < 0.2 else False))
         hist = []
         nontriv = False
+        env.static_sense = bytearray(252) if s % 3 == 1 else None
+        kept = None  # (exception, values, text) of the previous CHECK CONDITION
         for pos, (status, reuse, raw) in enumerate(steps):
-            sense = env.unique_sense(rng) if status == 2 else None
+            if status == 2 and rng.random() < 0.3:
+                # UNIT ATTENTION / POWER ON, RESET: typically seen (repeatedly) after a re-plug
+                sense = ref_build_ua(env)
+            else:
+                sense = env.unique_sense(rng) if status == 2 else None
             env.plan = [(status, sense)]
+            if env.node is not None and rng.random() < 0.15:
+                from vmon.sim import devnode
+
+                devnode.replug(env.node)
+                hist.append({"pos": pos, "event": "node replaced"})
             if reuse:
                 cmd = rng.choice(cmds)
             else:
                 cmd = fresh_cmd(env, rng)
                 cmds.append(cmd)
-            outcome, exc = execute(env, cmd, raw)
+            via = "scsi" if (pos + s) % 4 == 0 else None
+            consumed_before = len(env.injected)
+            outcome, exc = execute(env, cmd, raw, via)
             ctx.count("binding_calls")
-            hist.append({"pos": pos, "status": status, "reused_object": bool(reuse), "raw": raw, "outcome": outcome})
+            hist.append({"pos": pos, "status": status, "reused_object": bool(reuse), "raw": raw, "outcome": outcome, "via": via or "device.execute"})
+            if len(env.injected) - consumed_before != 1:
+                ctx.fail("C07:%s.sequence.binding_reached_%d_times" % (t, len(env.injected) - consumed_before),
+                         "one execute() reached the binding %d times" % (len(env.injected) - consumed_before), {"history": hist[-6:]})
+            if kept is not None:
+                k_exc, k_vals, k_text = kept
+                now = (k_exc.data.get("sense_key"), getattr(k_exc, "asc", None), getattr(k_exc, "ascq", None))
+                try:
+                    now_text = str(k_exc)
+                except Exception:  # noqa: BLE001
+                    now_text = None
+                if now != k_vals or now_text != k_text:
+                    ctx.fail("C07:%s.sequence.earlier_error_changed_by_later_command" % t,
+                             "the CheckCondition of an earlier command now reports %r (%r), it reported %r (%r)" % (now, now_text, k_vals, k_text),
+                             {"history": hist[-6:], "static_sense_buffer": env.static_sense is not None})
+                kept = None
+            if status == 2 and outcome == "raised" and isinstance(exc, env.dev.CheckCondition) and isinstance(getattr(exc, "data", None), dict):
+                try:
+                    kept = (exc, (exc.data.get("sense_key"), getattr(exc, "asc", None), getattr(exc, "ascq", None)), str(exc))
+                except Exception:  # noqa: BLE001
+                    kept = None
             nontriv = nontriv or status != 0
             judge_call(ctx, env, "sequence", status, sense, raw, outcome, exc, cmd,
                        {"position": pos, "reused_command_object": bool(reuse), "history": hist[-6:]})
-        ctx.case((t, "seq", tuple((h["status"], h["reused_object"], h["raw"]) for h in hist)), nontriv,
+        ctx.case((t, "seq", tuple((h.get("status"), h.get("reused_object"), h.get("raw"), h.get("via"), h.get("event")) for h in hist)), nontriv,
                  sample={"transport": t, "history": hist} if ctx.want_sample() else None)
         ctx.add("sequence_lengths", length)
-        if any(h["reused_object"] and h["status"] == 2 for h in hist):
+        if any(h.get("reused_object") and h.get("status") == 2 for h in hist):
             ctx.count("sequences_with_retry_after_failure")
 
 
